@@ -194,7 +194,7 @@ def c02(tier, seed):
 
 
 def c10(tier, seed):
-    return _verus_prop("C10", tier, seed, [("layout", r"::(blob|Layout::known_type_for_size|Layout::for_size_internal|Layout::for_size|integer_type|bitfield_unit|Layout::new|align_to|comp_tail_layout)::", None), ("opaque", None, None), ("vouch", None, None), ("lattice_constrain", r"::HasVtableAnalysis::", None), ("prim_types", r"::(BindgenContext::is_stdint_type|type_from_named)::", None),
+    return _verus_prop("C10", tier, seed, [("layout", r"::(blob|Layout::known_type_for_size|Layout::for_size_internal|Layout::for_size|integer_type|bitfield_unit|Layout::new|align_to|comp_tail_layout)::", None), ("opaque", None, None), ("vouch", None, None), ("impl_debug", None, None), ("lattice_constrain", r"::HasVtableAnalysis::", None), ("prim_types", r"::(BindgenContext::is_stdint_type|type_from_named)::", None),
                                            ("constrain", r"::CannotDerive::constrain_type::", None), ("blocklist", None, None), ("repr", None, None)], {
         "trusted_base": LAYOUT_TRUST,
         "functions_under_contract": ["bindgen/codegen/helpers.rs: blob, integer_type, bitfield_unit", "bindgen/ir/layout.rs: Layout::{known_type_for_size, new, for_size_internal, for_size}",
@@ -203,6 +203,7 @@ def c10(tier, seed):
                                      "bindgen/codegen/mod.rs: the tail of CompInfo::codegen (unit layout, statement R18): an opaque record with a known layout gets exactly one field, a blob of exactly the C size and alignment, and repr(align)",
                                      "bindgen/codegen/mod.rs: the `packed` decision of CompInfo::codegen (an opaque blob never carries `packed` next to its repr(align))",
                                      "bindgen/ir/analysis/has_vtable.rs: HasVtableAnalysis::{insert, forward, constrain} (unit lattice_constrain, as under C07): whether a type gets a vtable pointer is decided by the documented rule for EVERY type, opaque or not - a class deriving from an opaque polymorphic base must not get a second vtable pointer ('types that contain it keep their correct layout')",
+                                     "bindgen/codegen/impl_debug.rs: the array arm of <Item as ImplDebug>::impl_debug (unit impl_debug, block R18): a hand-written Debug impl prints an array member only when its element type takes part in Debug impls - not for a blocklisted element type (found and repaired F19)",
                                      "bindgen/ir/context.rs: the two nested closures of BindgenContext::blocklisted_type_implements_trait (unit vouch, R18): a trait is derivable through a blocklisted type only when somebody vouched - bindgen itself for the <stdint.h> names when no callback is registered, otherwise the user's callback; no name or no answer means No",
                                      "bindgen/ir/context.rs: BindgenContext::is_stdint_type and bindgen/codegen/mod.rs: utils::type_from_named (unit prim_types): the names bindgen vouches for itself are exactly the <stdint.h>/<stddef.h> names it maps to a primitive whether or not they are blocklisted",
                                      "bindgen/ir/analysis/derive.rs: CannotDerive::constrain_type (first rule: an item outside the allowlisted set gets exactly what blocklisted_type_implements_trait says, before any other rule)"],
@@ -331,7 +332,7 @@ def c08(tier, seed):
         return units_incrate.run_spec(units_incrate.derive_tables_spec())
     return _verus_prop("C08", tier, seed, [("derive_gate", None, None), ("derives", None, None), ("constrain", None, None), ("fn_abi", r"function_pointers_can_derive", None),
                                            # the float exclusion for Eq/Ord and the derive analysis' own subscriptions are C08 mechanisms too
-                                           ("edges", r"::(has_float_consider_edge|consider_edge_default)::", None), ("has_float", None, None), ("union_repr", r"::CompInfo::is_rust_union::", None), ("bitfield_limit", None, None)], {
+                                           ("edges", r"::(has_float_consider_edge|consider_edge_default)::", None), ("has_float", None, None), ("union_repr", r"::CompInfo::is_rust_union::", None), ("bitfield_limit", None, None), ("impl_debug", None, None)], {
         "trusted_base": INCRATE_TRUST + ["env/derive_gate_env.rs: uninterpreted options and analysis lookups; generic impl<T> instantiated at T = ItemId",
                                         "rule-table oracle written from the property statement (kani_incrate/derive_tables.rs)"],
         "functions_under_contract": ["bindgen/ir/context.rs: the eight impl<T> CanDerive{Debug,Default,Copy,Hash,PartialOrd,PartialEq,Eq,Ord} for T bodies",
